@@ -8,6 +8,7 @@ package main
 import (
 	"fmt"
 	"go/token"
+	"sort"
 	"strconv"
 	"strings"
 
@@ -325,7 +326,15 @@ func corrExcerpt(o corrOpts) *res.Summary {
 				lengthSet[r.Intn(3*M+1)] = true
 			}
 		}
-		for n := range lengthSet {
+		sortedKeys := func(m map[int]bool) []int {
+			var l []int
+			for k := range m {
+				l = append(l, k)
+			}
+			sort.Ints(l)
+			return l
+		}
+		for _, n := range sortedKeys(lengthSet) {
 			// columns: all in thorough; in quick the bands around 1, M-3, n-M+3, n
 			colSet := map[int]bool{}
 			if tier == "thorough" {
@@ -344,7 +353,7 @@ func corrExcerpt(o corrOpts) *res.Summary {
 					colSet[1+r.Intn(n+1)] = true
 				}
 			}
-			for c := range colSet {
+			for _, c := range sortedKeys(colSet) {
 				kind := r.Intn(5)
 				if tier != "thorough" && c%3 == 0 {
 					kind = 0
